@@ -4,7 +4,7 @@ Import ListNotations.
 Open Scope string_scope.
 Open Scope N_scope.
 
-(* get_ver_from_magic_num: match arms in order (lo, hi, major, minor); the last arm is `_ => panic!` *)
+(* [try_]get_ver_from_magic_num: match arms in order (lo, hi, major, minor); any other number: None / panic! *)
 Definition erg_magic_ranges : list (N * N * N * N) := [
   (3360, 3379, 3, 6); (3390, 3394, 3, 7); (3400, 3413, 3, 8);
   (3420, 3425, 3, 9); (3430, 3439, 3, 10); (3495, 3495, 3, 11);
